@@ -931,13 +931,18 @@ func (m *Nitro) StoreToDisk(dir string, snap *Snapshot, concurr int, itmCallback
 	writers := make([]FileWriter, shards)
 	files := make([]string, shards)
 	checksums := make([]uint32, shards)
-	defer func() {
-		for _, w := range writers {
+	closeWriters := func(ws []FileWriter) (err error) {
+		for i, w := range ws {
 			if w != nil {
-				w.Close()
+				ws[i] = nil
+				if e := w.Close(); e != nil && err == nil {
+					err = e
+				}
 			}
 		}
-	}()
+		return
+	}
+	defer closeWriters(writers)
 
 	for shard := 0; shard < shards; shard++ {
 		w := m.newFileWriter(m.fileType)
@@ -956,13 +961,7 @@ func (m *Nitro) StoreToDisk(dir string, snap *Snapshot, concurr int, itmCallback
 		deltaWriters := make([]FileWriter, m.numWriters())
 		deltaFiles := make([]string, m.numWriters())
 		deltaChecksums := make([]uint32, m.numWriters())
-		defer func() {
-			for _, w := range deltaWriters {
-				if w != nil {
-					w.Close()
-				}
-			}
-		}()
+		defer closeWriters(deltaWriters)
 
 		deltadir := filepath.Join(dir, "delta")
 		os.MkdirAll(deltadir, 0755)
@@ -992,15 +991,22 @@ func (m *Nitro) StoreToDisk(dir string, snap *Snapshot, concurr int, itmCallback
 		snap = &fakeSnap
 
 		defer func() {
-			if err = m.changeDeltaWrState(dwStateTerminate, nil, nil); err == nil {
-				bs, _ := json.Marshal(deltaFiles)
-				err = ioutil.WriteFile(filepath.Join(deltadir, "files.json"), bs, 0660)
-				if err == nil {
-					for id, dwr := range deltaWriters {
-						deltaChecksums[id] = dwr.Checksum()
+			// Keep an earlier error: a failed scan must not be reported as success
+			if e := m.changeDeltaWrState(dwStateTerminate, nil, nil); err == nil {
+				err = e
+			}
+			if err == nil {
+				for id, dwr := range deltaWriters {
+					deltaChecksums[id] = dwr.Checksum()
+				}
+				// The delta files must be complete on disk before their manifests exist
+				if err = closeWriters(deltaWriters); err == nil {
+					bs, _ := json.Marshal(deltaFiles)
+					err = ioutil.WriteFile(filepath.Join(deltadir, "files.json"), bs, 0660)
+					if err == nil {
+						bs, _ = json.Marshal(deltaChecksums)
+						err = ioutil.WriteFile(filepath.Join(deltadir, "checksums.json"), bs, 0660)
 					}
-					bs, _ = json.Marshal(deltaChecksums)
-					err = ioutil.WriteFile(filepath.Join(deltadir, "checksums.json"), bs, 0660)
 				}
 			}
 		}()
@@ -1026,14 +1032,18 @@ func (m *Nitro) StoreToDisk(dir string, snap *Snapshot, concurr int, itmCallback
 	manifest, _ := json.Marshal(map[string]interface{}{"version": version})
 	if err = ioutil.WriteFile(filepath.Join(manifestdir, "nitro.json"), manifest, 0660); err == nil {
 		if err = m.Visitor(snap, visitorCallback, shards, concurr); err == nil {
-			bs, _ := json.Marshal(files)
-			err = ioutil.WriteFile(filepath.Join(datadir, "files.json"), bs, 0660)
-			if err == nil {
-				for id, wr := range writers {
-					checksums[id] = wr.Checksum()
+			for id, wr := range writers {
+				checksums[id] = wr.Checksum()
+			}
+			// The shard files must be complete on disk (terminator written, buffers
+			// flushed, files closed without error) before the manifests exist
+			if err = closeWriters(writers); err == nil {
+				bs, _ := json.Marshal(files)
+				err = ioutil.WriteFile(filepath.Join(datadir, "files.json"), bs, 0660)
+				if err == nil {
+					bs, _ = json.Marshal(checksums)
+					err = ioutil.WriteFile(filepath.Join(datadir, "checksums.json"), bs, 0660)
 				}
-				bs, _ = json.Marshal(checksums)
-				err = ioutil.WriteFile(filepath.Join(datadir, "checksums.json"), bs, 0660)
 			}
 		}
 	}
